@@ -155,7 +155,10 @@ func goEnv() []string {
 func preludeDecls(pkg string) string {
 	return "package " + pkg + `
 
-import vsync "sync"
+import (
+	vsync "sync"
+	vtime "time"
+)
 
 func vU8(name string) uint8
 func vU16(name string) uint16
@@ -185,6 +188,12 @@ func vInsertionSort(n int, less func(i, j int) bool, swap func(i, j int)) {
 			swap(j, j-1)
 		}
 	}
+}
+
+// helper of the engine's model of time.AfterFunc
+func vAfterFuncWait(ch <-chan vtime.Time, f func()) {
+	<-ch
+	f()
 }
 
 // model of sync.Map: one ordinary map per sync.Map value (single-threaded engine; iteration order
